@@ -58,9 +58,18 @@ Proof. exact no_prefix_bypass_check. Qed.
 Print Assumptions no_prefix_bypass.
 
 Theorem no_prefix_bypass_forall : forall guards path p, dispatch guards prefixes path = Some p ->
-  mem "C19-debug-public" open_findings = true /\ known_prefix p = true.
+  prefix_admin p = true \/ (mem "C19-debug-public" open_findings = true /\ known_prefix p = true).
 Proof. exact prefix_bypass_only_open_finding. Qed.
 Print Assumptions no_prefix_bypass_forall.
+
+(* a dispatched prefix that runs behind authenticate and asks for the administrator (fix6.patch) acts for nobody else *)
+Theorem authenticated_prefix_refuses : forall sh cfg g ps us path r k rq p,
+  dispatch g ps path = Some p -> prefix_admin p = true ->
+  auth_enabled cfg = true -> admin_exists us = true ->
+  ((forall u, ~ valid_creds cfg us (rq_creds rq) u) -> serve_path sh cfg g ps us path r k rq = (401, [])) /\
+  (forall u, valid_creds cfg us (rq_creds rq) u -> u_admin u = false -> serve_path sh cfg g ps us path r k rq = (403, [])).
+Proof. exact authenticated_prefix_refuses_lemma. Qed.
+Print Assumptions authenticated_prefix_refuses.
 
 Theorem repaired_dispatch_reaches_mux : forall guards path, dispatch guards (unexempt_prefixes open_findings prefixes) path = None.
 Proof. exact repaired_dispatch_is_mux. Qed.
